@@ -98,6 +98,104 @@ def run_harness(binp, args, timeout=600, stdin=None, env=None, cwd=None):
     return p.returncode, lines, p.stderr.decode("utf-8", "replace")
 
 
+def run_harness_watched(binp, args, stall=20, timeout=3400, env=None):
+    """run a harness subcommand that reports progress (util::progress); a case that makes no progress for
+    `stall` seconds is a hang: the process is killed.  Returns (rc, parsed stdout lines, stderr, hung_case or None)."""
+    prog = os.path.join(scratch(), f"progress_{os.getpid()}_{int(time.time() * 1000) % 100000}")
+    if os.path.exists(prog):
+        os.remove(prog)
+    e = dict(os.environ)
+    if env:
+        e.update(env)
+    e["A2LVERIF_PROGRESS"] = prog
+    so = open(prog + ".stdout", "wb")
+    se = open(prog + ".stderr", "wb")
+    p = subprocess.Popen([binp] + [str(a) for a in args], stdout=so, stderr=se, env=e)
+    t0 = time.time()
+    last_val, last_change, hung = None, time.time(), None
+    while True:
+        try:
+            p.wait(timeout=0.5)
+            break
+        except subprocess.TimeoutExpired:
+            pass
+        try:
+            val = open(prog).read()
+        except OSError:
+            val = None
+        now = time.time()
+        if val != last_val:
+            last_val, last_change = val, now
+        elif val is not None and now - last_change > stall:
+            try:
+                hung = int(val)
+            except ValueError:
+                hung = -1
+            p.kill()
+            p.wait()
+            break
+        if now - t0 > timeout:
+            p.kill()
+            p.wait()
+            hung = -1
+            break
+    so.close()
+    se.close()
+    lines = []
+    for l in open(prog + ".stdout", "rb").read().decode("utf-8", "replace").splitlines():
+        l = l.strip()
+        if l.startswith("{"):
+            try:
+                lines.append(json.loads(l))
+            except json.JSONDecodeError:
+                pass
+    err = open(prog + ".stderr", "rb").read().decode("utf-8", "replace")
+    for f in (prog, prog + ".stdout", prog + ".stderr"):
+        if os.path.exists(f):
+            os.remove(f)
+    return p.returncode, lines, err, hung
+
+
+def run_cases_resilient(binp, subcmd, cases_path, out_path, ncases, extra=(), stall=20, max_hangs=5):
+    """run a case file through a harness subcommand that writes one result line per case to out_path; hung cases are
+    skipped and reported.  Returns (results: list of length ncases with {"hang": True} for hung / unfinished cases,
+    list of hung case indices)."""
+    results = [None] * ncases
+    hangs = []
+    skip = 0
+    while skip < ncases:
+        if os.path.exists(out_path):
+            os.remove(out_path)
+        rc, lines, err, hung = run_harness_watched(binp, [subcmd, "--cases", cases_path, "--out", out_path, "--skip", skip] + list(extra), stall=stall)
+        got = []
+        if os.path.exists(out_path):
+            with open(out_path) as f:
+                for l in f:
+                    l = l.strip()
+                    if l:
+                        try:
+                            got.append(json.loads(l))
+                        except json.JSONDecodeError:
+                            break
+        for i, r in enumerate(got):
+            if skip + i < ncases:
+                results[skip + i] = r
+        if hung is None:
+            if rc != 0:
+                tool_error(f"{subcmd} failed rc={rc}: {err[-500:]}")
+            break
+        h = skip + len(got) if hung < 0 or hung < skip + len(got) else hung
+        hangs.append(h)
+        results[h] = {"hang": True}
+        skip = h + 1
+        if len(hangs) >= max_hangs:
+            break
+    for i in range(ncases):
+        if results[i] is None:
+            results[i] = {"hang": True, "not_run": True}
+    return results, hangs
+
+
 # --------------------------------------------------------------------------------------------
 # TLC
 # --------------------------------------------------------------------------------------------
